@@ -196,7 +196,7 @@ class kLeastAbsErrorsCycles(walkmodel.AbstractWalkModelDiGraph):
         # If k is not specified, we set k to the edge width of the graph
         if self.k is None:
             self.k = self.G.get_width(list(self.edges_to_ignore))
-        self.optimization_options = optimization_options or {}        
+        self.optimization_options = dict(optimization_options) if optimization_options else {}        
 
         self.subset_constraints_coverage = subset_constraints_coverage
         
